@@ -21,7 +21,7 @@ func init() {
 			"Roland checksum rule: (sum of address + payload/size bytes + checksum) mod 128 == 0",
 			"ids and addresses are 7-bit values (sysex data bytes)",
 		},
-		Require: []string{"dataset_values", "request_values", "corruptions_rejected", "checksum_nonzero", "locate_values", "command_values", "held_across_later_build", "reparse_after_modification", "reused_receivers", "dump_packets_built"},
+		Require: []string{"dataset_values", "request_values", "corruptions_rejected", "checksum_nonzero", "locate_values", "command_values", "held_across_later_build", "reparse_after_modification", "reused_receivers", "dump_packets_built", "appends_to_parsed_payloads"},
 		Run:     runC18,
 	})
 }
@@ -208,6 +208,50 @@ func runC18(c *mon.Ctx) {
 			}
 		}
 		c.DistinctBytes(want, []byte(fmt.Sprint(psize, order)))
+	})
+
+	// parse results belong to the caller: after several messages were parsed, the payload of each result is
+	// grown with append (padding it for re-sending, say); no other result may change
+	c.Each("append-to-parsed", c.N(300, 20_000), func(i int64, r *mon.Rand) {
+		n := r.Range(2, 8)
+		type res struct {
+			p    *sysex.Manufacturer
+			want []byte
+		}
+		var rs []res
+		var sizes []int
+		for k := 0; k < n; k++ {
+			var m sysex.Manufacturer
+			m.ManufacturerID = sysex.ManufacturerID(r.Byte() & 0x7F)
+			m.DeviceID, m.ModelID = r.Byte()&0x7F, r.Byte()&0x7F
+			copy(m.Address[:], r.Bytes7(3))
+			m.SendingData = r.Bytes7(r.Pick(1, 3, 5, 16, 64, 128, 300))
+			bt := append([]byte(nil), m.SysEx()...)
+			p, err := sysex.Parse(bt)
+			if err != nil {
+				c.Violation("parse-rejects-built", fmt.Sprintf("Parse(SysEx()) fails: %v", err), short(m), nil, err.Error())
+				return
+			}
+			rs = append(rs, res{p, append([]byte(nil), m.SendingData...)})
+			sizes = append(sizes, len(m.SendingData))
+		}
+		in := map[string]any{"payload_sizes_in_parsing_order": sizes}
+		order := r.Perm(n)
+		for _, k := range order {
+			rs[k].p.SendingData = append(rs[k].p.SendingData, 0x7F, 0x55, 0x66)
+			c.Count("appends_to_parsed_payloads", 1)
+			for q := range rs {
+				got := rs[q].p.SendingData
+				if len(got) > len(rs[q].want) {
+					got = got[:len(rs[q].want)]
+				}
+				if !bytes.Equal(got, rs[q].want) {
+					c.Violation("parsed-value-changed", fmt.Sprintf("appending 3 bytes to the payload of parse result %d changed the payload of parse result %d (not touched by the caller): now %s, built from %s", k, q, mon.Hex(head(got, 12)), mon.Hex(head(rs[q].want, 12))), in, mon.Hex(head(rs[q].want, 16)), mon.Hex(head(got, 16)))
+					return
+				}
+			}
+		}
+		c.DistinctBytes([]byte(fmt.Sprint("app", sizes, order)), rs[0].want)
 	})
 
 	// the library's own documented example must parse
